@@ -8,7 +8,11 @@ EXTRACT = ("theories/Extract/XC17.v", "c17",
            ["entry_ilm", "entry_rm", "entry_rm_noties", "entry_check_ilm", "entry_check_rm", "entry_check_noties"])
 PYX = {}
 CASE_TIMEOUT = 30
-RULE = ("three streams, corpus first: is_local_maximum(image, labels, footprint) with footprints 3x3..9x9 (both sizes "
+RULE = ("four streams, corpus first (round 2: every array in C / Fortran / strided / negative-stride / transposed / "
+        "read-only layout, dtype extremes, thin 900x3 and 3x900 images, many labels, footprints up to 9x9 / 3x11 / 11x3, "
+        "structures 1x1..11x11 with arbitrary content incl. unset centre and larger than the image (model and "
+        "implementation must reject the same inputs), border/mask-touching plateaus, call histories in one process "
+        "with the global RNG perturbed between calls): is_local_maximum(image, labels, footprint) with footprints 3x3..9x9 (both sizes "
         "odd >= 3; full, random density, one-sided/asymmetric, single off-centre cell, centre off, empty), "
         "regional_maximum(..., ties_are_ok=True) with structure None / 4-connected / random or one-sided 3x3 / "
         "2x2..5x5 and mask None / random / all / none, regional_maximum(..., ties_are_ok=False); shapes skewed to "
@@ -32,16 +36,19 @@ TRUSTED = [
     "structure=None is sent to the model as the 3x3 all-ones array (scipy generate_binary_structure(2, 2))",
 ]
 ASSUMPTIONS = [
-    "C-contiguous image/labels of equal shape; footprint with both dimensions odd and >= 3 (DESIGN.md C17 scope note)",
+    "image/labels of equal shape in any memory layout; footprint with both dimensions odd and >= 3 (DESIGN.md C17 scope note)",
     "no NaN intensities (all comparisons with NaN are false; outside the property's quantifier)",
-    "regional_maximum: image at least as large as the structure's half shape (a larger offset makes a slice bound "
-    "negative, NumPy then counts from the end and the shifted slices differ in shape)",
+    "regional_maximum: a structure with a set non-centre cell at an offset off with n < |off| < 2n-1 along an axis of "
+    "length n makes the real code raise ValueError (negative slice bound wraps, shapes differ); outside the property's "
+    "quantifier; the model rejects exactly these inputs (C17_regional_maximum_ties_char) and the check only requires "
+    "that the implementation rejects them too",
 ]
 EXHAUSTIVE = {"quick": False, "thorough": False}
 
 IMG_DTYPES = ["bool", "uint8", "int8", "uint16", "int16", "uint32", "int32", "uint64", "int64",
               "float16", "float32", "float64"]
 LAB_DTYPES = ["int32", "int64", "uint8", "int8", "uint16", "int16", "uint32", "uint64", "bool", "float32", "float64"]
+ST_DTYPES = ["bool", "uint8", "int32", "int64"]
 FP_DTYPES = ["bool", "uint8", "int64", "float64"]
 E8 = [[1, 1, 1], [1, 1, 1], [1, 1, 1]]
 E4 = [[0, 1, 0], [1, 1, 1], [0, 1, 0]]
@@ -84,8 +91,21 @@ def _image(rng, h, w):
         cls = "ramp"; a = np.add.outer(np.arange(h) * int(rng.choice([-1, 0, 1])), np.arange(w) * int(rng.choice([-1, 1])))
     elif u < 0.90:
         cls = "random"; a = rng.randint(-100, 101, (h, w))
-    else:
+    elif u < 0.95:
         cls = "wide"; a = rng.randint(-2 ** 31, 2 ** 31, (h, w))
+    else:
+        # the extreme values of the dtype (no arithmetic on them below)
+        cls = "extremes"
+        if kind == "f":
+            fi = np.finfo(dt)
+            vals = [fi.max, fi.min, fi.tiny, -fi.tiny, 0.0, -0.0, np.inf, -np.inf, 1.0, fi.eps]
+        elif kind == "b":
+            vals = [False, True]
+        else:
+            ii = np.iinfo(dt)
+            vals = [ii.min, ii.max, ii.min + 1, ii.max - 1, 0, 1]
+        a = np.array([vals[rng.randint(len(vals))] for _ in range(h * w)], dtype=dt).reshape(h, w)
+        return a.tolist(), dt, cls
     if kind == "b":
         a = (a % 2) != 0
     elif kind == "u":
@@ -128,15 +148,25 @@ def _labels(rng, h, w):
         cls = "single"; a = np.zeros((h, w), int)
         if a.size:
             a.flat[rng.randint(a.size)] = 3
-    else:
+    elif u < 0.97:
         cls = "stripes"; a = np.add.outer(np.arange(h), np.zeros(w, int)) % 3
+    else:
+        cls = "many"      # every pixel (or every 2x2 block) its own label
+        if rng.rand() < 0.5:
+            a = np.arange(1, h * w + 1).reshape(h, w)
+        else:
+            a = np.kron(np.arange(1, ((h + 1) // 2) * ((w + 1) // 2) + 1).reshape((h + 1) // 2, (w + 1) // 2),
+                        np.ones((2, 2), int))[:h, :w]
+        if np.dtype(dt).kind in "iu":
+            a = a % (np.iinfo(dt).max + 1 if np.iinfo(dt).max < 2 ** 31 else 2 ** 31)
     if dt == "bool":
         a = a > 0
     a = np.asarray(a).astype(dt)
     return a.tolist(), dt, cls
 
 
-FP_SHAPES = [(3, 3), (3, 3), (3, 3), (5, 3), (3, 5), (5, 5), (3, 7), (7, 3), (7, 7), (5, 7), (9, 3), (9, 9)]
+FP_SHAPES = [(3, 3), (3, 3), (3, 3), (5, 3), (3, 5), (5, 5), (3, 7), (7, 3), (7, 7), (5, 7), (9, 3), (9, 9),
+             (3, 11), (11, 3), (9, 5)]
 
 
 def _footprint(rng):
@@ -170,23 +200,31 @@ def _footprint(rng):
 
 def _structure(rng, h, w, ties_ok):
     u = rng.rand()
-    if u < 0.35:
+    if u < 0.25:
         return None, "default"
-    if u < 0.55:
+    if u < 0.40:
         return E4, "4-connected"
-    if u < 0.62:
+    if u < 0.45:
         return E8, "8-connected"
-    if u < 0.80:
+    if u < 0.58:
         return (rng.rand(3, 3) < 0.6).astype(int).tolist(), "random3x3"
-    if u < 0.88:
+    if u < 0.64:
         s = np.zeros((3, 3), int); s[:2, :] = 1; s[1, 1] = rng.rand() < 0.5
         return s.tolist(), "one-sided3x3"
-    # other shapes (also even ones) as long as the half shape fits into the image
-    for _ in range(8):
-        sh, sw = int(rng.choice([1, 2, 3, 4, 5])), int(rng.choice([1, 2, 3, 4, 5]))
-        if sh // 2 <= h and sw // 2 <= w:
-            return (rng.rand(sh, sw) < 0.7).astype(int).tolist(), "%dx%d" % (sh, sw)
-    return E8, "8-connected"
+    if u < 0.72:
+        # very sparse: plateaus may touch the border (no neighbour is looked at in most directions)
+        s = np.zeros((3, 3), int); s[rng.randint(3), rng.randint(3)] = 1; s[1, 1] = rng.rand() < 0.5
+        return s.tolist(), "sparse3x3"
+    if u < 0.90:
+        # every odd shape up to 11x11, arbitrary content, centre set or not; may exceed the image
+        sh, sw = int(rng.choice([1, 3, 5, 7, 9, 11])), int(rng.choice([1, 3, 5, 7, 9, 11]))
+        s = (rng.rand(sh, sw) < rng.choice([0.2, 0.5, 0.8])).astype(int)
+        s[sh // 2, sw // 2] = rng.rand() < 0.5
+        return s.tolist(), "odd%dx%d" % (sh, sw)
+    sh, sw = int(rng.choice([2, 4, 6])), int(rng.choice([1, 2, 3, 4]))
+    if rng.rand() < 0.5:
+        sh, sw = sw, sh
+    return (rng.rand(sh, sw) < 0.6).astype(int).tolist(), "even%dx%d" % (sh, sw)
 
 
 def _mask(rng, h, w):
@@ -205,24 +243,36 @@ def _mask(rng, h, w):
     return m.astype(dt).tolist(), dt, cls
 
 
-def _ilm_case(rng, big):
-    h, w = _shape(rng, big)
+def _ilm_case(rng, big, shape=None):
+    h, w = shape or _shape(rng, big)
     img, idt, icls = _image(rng, h, w)
     lab, ldt, lcls = _labels(rng, h, w)
     fp, fdt, fcls = _footprint(rng)
     return {"fn": "ilm", "shape": [h, w], "image": img, "idt": idt, "labels": lab, "ldt": ldt, "fp": fp, "fdt": fdt,
-            "cls": [icls, lcls, fcls]}
+            "lay": _pick_layouts(rng, ["image", "labels", "fp"]), "cls": [icls, lcls, fcls]}
 
 
-def _rm_case(rng, big, ties_ok):
-    h, w = _shape(rng, big)
+def _rm_case(rng, big, ties_ok, shape=None):
+    h, w = shape or _shape(rng, big)
     img, idt, icls = _image(rng, h, w)
     if rng.rand() < 0.5:          # regional maxima need plateaus to be interesting
         img, idt, icls = (rng.randint(0, 3, (h, w)).astype("float64").tolist(), "float64", "levels")
     m, mdt, mcls = _mask(rng, h, w)
     st, scls = _structure(rng, h, w, ties_ok)
     return {"fn": "rm" if ties_ok else "rmnt", "shape": [h, w], "image": img, "idt": idt, "mask": m, "mdt": mdt,
-            "st": st, "cls": [icls, mcls, scls]}
+            "st": st, "sdt": ST_DTYPES[rng.randint(len(ST_DTYPES))] if st is not None else None,
+            "lay": _pick_layouts(rng, ["image", "mask", "st"]), "cls": [icls, mcls, scls]}
+
+
+def _hist_case(rng, big):
+    """a few calls in one process, with repetitions; the global RNG is perturbed before every call"""
+    base = [_rm_case(rng, min(big, 7), False) for _ in range(2)] + [_rm_case(rng, min(big, 7), True)]
+    if rng.rand() < 0.5:
+        base.append(_ilm_case(rng, min(big, 7)))
+    order = [0, 1, 0, 2, 1, 0] if len(base) == 3 else [0, 3, 1, 0, 2, 3, 1, 0]
+    calls = [base[k] for k in order]
+    return {"fn": "hist", "shape": [0, 0], "calls": calls, "seeds": [int(rng.randint(0, 10 ** 6)) for _ in calls],
+            "idt": "-", "cls": ["hist", "-", "-"]}
 
 
 def _corpus():
@@ -267,6 +317,32 @@ def _corpus():
     return c
 
 
+def _count(ctx, c):
+    ctx.count(c["fn"])
+    if c["fn"] == "hist":
+        for s in c["calls"]:
+            ctx.count("hist-call:" + s["fn"])
+        return
+    ctx.count("shape:%s" % ("1x1" if c["shape"] == [1, 1] else "thin-long" if max(c["shape"]) >= 100 else
+                            "1xN" if c["shape"][0] == 1 else "Nx1" if c["shape"][1] == 1 else
+                            "small" if max(c["shape"]) <= 3 else "general"))
+    ctx.count("image:" + c["cls"][0])
+    ctx.count("idt:" + c["idt"])
+    for name, kind in sorted((c.get("lay") or {}).items()):
+        ctx.count("layout:%s:%s" % (name, kind))
+    if not (c.get("lay") or {}):
+        ctx.count("layout:all-C")
+    if c["fn"] == "ilm":
+        ctx.count("labels:" + c["cls"][1]); ctx.count("fp:" + c["cls"][2]); ctx.count("ldt:" + c["ldt"])
+        ctx.count("fp:%dx%d" % (len(c["fp"]), len(c["fp"][0])))
+        if c["shape"][0] < len(c["fp"]) or c["shape"][1] < len(c["fp"][0]):
+            ctx.count("image smaller than footprint")
+    else:
+        ctx.count("mask:" + c["cls"][1]); ctx.count("structure:" + c["cls"][2])
+        if not _slices_ok(c):
+            ctx.count("structure exceeds image (both must reject)")
+
+
 def generate(ctx):
     rng = ctx.rng
     big = ctx.n(9, 12)
@@ -277,44 +353,97 @@ def generate(ctx):
         cases.append(_rm_case(rng, big, True))
     for _ in range(ctx.n(500, 5000)):
         cases.append(_rm_case(rng, big, False))
+    for _ in range(ctx.n(40, 400)):
+        cases.append(_hist_case(rng, big))
+    # thin long images (longer than any internal chunk) and wide many-label images
+    for _ in range(ctx.n(2, 12)):
+        for shape in ((900, 3), (3, 900), (1, 700), (650, 1)):
+            cases.append(_ilm_case(rng, big, shape))
+    for _ in range(ctx.n(1, 6)):
+        for shape in ((900, 3), (3, 900)):
+            cases.append(_rm_case(rng, big, True, shape))
+            cases.append(_rm_case(rng, big, False, shape))
     for c in cases:
-        ctx.count(c["fn"])
-        ctx.count("shape:%s" % ("1x1" if c["shape"] == [1, 1] else "1xN" if c["shape"][0] == 1 else
-                                "Nx1" if c["shape"][1] == 1 else "small" if max(c["shape"]) <= 3 else "general"))
-        ctx.count("image:" + c["cls"][0])
-        ctx.count("idt:" + c["idt"])
-        if c["fn"] == "ilm":
-            ctx.count("labels:" + c["cls"][1]); ctx.count("fp:" + c["cls"][2])
-            ctx.count("fp:%dx%d" % (len(c["fp"]), len(c["fp"][0])))
-            if c["shape"][0] < len(c["fp"]) or c["shape"][1] < len(c["fp"][0]):
-                ctx.count("image smaller than footprint")
-        else:
-            ctx.count("mask:" + c["cls"][1]); ctx.count("structure:" + c["cls"][2])
+        _count(ctx, c)
     return cases
 
 
-# ------------------------------------------------------------------------------------ implementation side
+LAYOUTS = ["C", "F", "strided", "neg", "T", "ro", "strided-ro", "offset"]
 
-def _arr(lst, dt, shape):
-    return np.ascontiguousarray(np.array(lst, dtype=dt).reshape(shape))
+
+def _lay(a, kind):
+    """an array equal to a in the requested memory layout"""
+    a = np.ascontiguousarray(a)
+    if kind in (None, "C"):
+        r = a
+    elif kind == "F":
+        r = np.asfortranarray(a)
+    elif kind in ("strided", "strided-ro"):
+        big = np.zeros(tuple(2 * n + 1 for n in a.shape), a.dtype)
+        big[tuple(slice(1, None, 2) for _ in a.shape)] = a
+        r = big[tuple(slice(1, None, 2) for _ in a.shape)]
+    elif kind == "neg":
+        r = np.ascontiguousarray(a[::-1, ::-1])[::-1, ::-1]
+    elif kind == "T":
+        r = np.ascontiguousarray(a.T).T
+    elif kind == "offset":
+        big = np.zeros(tuple(n + 3 for n in a.shape), a.dtype)
+        big[2:2 + a.shape[0], 1:1 + a.shape[1]] = a
+        r = big[2:2 + a.shape[0], 1:1 + a.shape[1]]
+    elif kind == "ro":
+        r = a.copy()
+    else:
+        raise ValueError(kind)
+    if kind in ("ro", "strided-ro"):
+        r.setflags(write=False)
+    assert r.shape == a.shape and r.dtype == a.dtype and (r == a).all()
+    return r
+
+
+def _arr(lst, dt, shape, kind=None):
+    return _lay(np.array(lst, dtype=dt).reshape(shape), kind)
+
+
+def _pick_layouts(rng, names):
+    if rng.rand() < 0.35:
+        return {}
+    return {n: LAYOUTS[rng.randint(len(LAYOUTS))] for n in names if rng.rand() < 0.7}
+
+
+def _impl_one(case):
+    from centrosome import cpmorphology as M
+    shape = tuple(case["shape"])
+    lay = case.get("lay") or {}
+    image = _arr(case["image"], case["idt"], shape, lay.get("image"))
+    keep = [image.copy()]
+    if case["fn"] == "ilm":
+        labels = _arr(case["labels"], case["ldt"], shape, lay.get("labels"))
+        fpa = np.array(case["fp"], dtype=case["fdt"])
+        fp = _lay(fpa, lay.get("fp"))
+        r = M.is_local_maximum(image, labels, fp)
+        same = (image == keep[0]).all()
+    else:
+        mask = None if case["mask"] is None else _arr(case["mask"], case["mdt"], shape, lay.get("mask"))
+        st = None if case["st"] is None else _lay(np.array(case["st"], dtype=case.get("sdt") or "bool"), lay.get("st"))
+        r = M.regional_maximum(image, mask, st, case["fn"] == "rm")
+        same = (image == keep[0]).all()
+    return {"out": np.asarray(r).astype(int).tolist(), "dtype": str(r.dtype), "shape": list(r.shape),
+            "image_unchanged": bool(same)}
 
 
 def impl(case):
-    from centrosome import cpmorphology as M
-    shape = tuple(case["shape"])
-    image = _arr(case["image"], case["idt"], shape)
-    if case["fn"] == "ilm":
-        labels = _arr(case["labels"], case["ldt"], shape)
-        fp = np.array(case["fp"], dtype=case["fdt"])
-        r = M.is_local_maximum(image, labels, fp)
-        return {"out": np.asarray(r).astype(int).tolist(), "dtype": str(r.dtype), "shape": list(r.shape)}
-    mask = None if case["mask"] is None else _arr(case["mask"], case["mdt"], shape)
-    st = None if case["st"] is None else np.array(case["st"], dtype=bool)
-    if case["fn"] == "rm":
-        r = M.regional_maximum(image, mask, st, True)
-        return {"out": np.asarray(r).astype(int).tolist(), "dtype": str(r.dtype), "shape": list(r.shape)}
-    r = M.regional_maximum(image, mask, st, False)
-    return {"out": np.asarray(r).astype(int).tolist(), "dtype": str(r.dtype), "shape": list(r.shape)}
+    if case["fn"] != "hist":
+        return _impl_one(case)
+    outs = []
+    for k, sub in enumerate(case["calls"]):
+        # perturb the global RNG between calls: results must not depend on the call history
+        np.random.seed(case["seeds"][k])
+        np.random.rand(case["seeds"][k] % 7)
+        try:
+            outs.append(_impl_one(sub))
+        except Exception as e:       # noqa
+            outs.append({"exc": type(e).__name__, "msg": str(e)[:300]})
+    return {"outs": outs}
 
 
 # ------------------------------------------------------------------------------------ model side
@@ -351,31 +480,101 @@ def _bad(o):
     return (not isinstance(o, dict)) or "exc" in o or "crash" in o
 
 
+def _slices_ok(case):
+    """Python copy of Proofs.LocalMaxReg.slices_okb: does the real code's slice arithmetic work for this structure?
+    (only used to decide whether an exception of regional_maximum is inside the property's domain)"""
+    if case["fn"] == "ilm":
+        return True
+    st = E8 if case["st"] is None else case["st"]
+    sh, sw = len(st), len(st[0]) if st else 0
+    h, w = case["shape"]
+
+    def ok(off, n):
+        return abs(off) <= n or 2 * n - 1 <= abs(off)
+    for i in range(sh):
+        for j in range(sw):
+            if st[i][j] and not (i == sh // 2 and j == sw // 2):
+                if not (ok(i - sh // 2, h) and ok(j - sw // 2, w)):
+                    return False
+    return True
+
+
 ENTRY = {"ilm": "entry_ilm", "rm": "entry_rm", "rmnt": "entry_rm_noties"}
+BIG = 150          # cells; above this the (slow) executable label instance is not run
 
 
-def model(ctx, cases, outs):
-    res = [None] * len(cases)
+def _flatten(cases, outs):
+    """hist cases are sequences of ordinary calls: returns the flat list [(case index, sub index, case, out)]"""
+    flat = []
+    for k, c in enumerate(cases):
+        o = outs[k] if outs is not None else None
+        if c["fn"] == "hist":
+            subs = o["outs"] if isinstance(o, dict) and "outs" in o else [o] * len(c["calls"])
+            for s, (sc, so) in enumerate(zip(c["calls"], subs)):
+                flat.append((k, s, sc, so))
+        else:
+            flat.append((k, None, c, o))
+    return flat
+
+
+def _model_flat(ctx, fcases):
+    res = [None] * len(fcases)
     for fn, entry in ENTRY.items():
-        idx = [k for k, c in enumerate(cases) if c["fn"] == fn]
-        for k, r in zip(idx, ctx.run_model(entry, [_margs(cases[k]) for k in idx])):
+        idx = [k for k, c in enumerate(fcases) if c["fn"] == fn
+               and not (fn == "rmnt" and c["shape"][0] * c["shape"][1] > BIG)]
+        for k, r in zip(idx, ctx.run_model(entry, [_margs(fcases[k]) for k in idx])):
             res[k] = r
+        if fn == "rmnt":      # large ties-not-ok cases: only whether the model rejects (through the ties-allowed model)
+            idx = [k for k, c in enumerate(fcases) if c["fn"] == fn and c["shape"][0] * c["shape"][1] > BIG]
+            for k, r in zip(idx, ctx.run_model("entry_rm", [_margs(fcases[k]) for k in idx])):
+                res[k] = [1, None] if isinstance(r, list) and r and r[0] == 1 else r
     return res
 
 
-def compare(case, out, m):
+def model(ctx, cases, outs):
+    flat = _flatten(cases, outs)
+    ms = _model_flat(ctx, [f[2] for f in flat])
+    res = [None] * len(cases)
+    for (k, s, _, _), m in zip(flat, ms):
+        if s is None:
+            res[k] = m
+        else:
+            res[k] = (res[k] or []) + [m]
+    return res
+
+
+def _compare_one(case, out, m):
+    rejected = not (isinstance(m, list) and m and m[0] == 1)
+    if rejected:
+        if m != [0]:
+            return "model error: %s" % (str(m)[:100],)
+        if isinstance(out, dict) and out.get("exc") in ("ValueError", "IndexError"):
+            return None          # model and implementation reject the same input
+        return "the model rejects this input but the implementation returned %s" % (str(out)[:120],)
     if _bad(out):
-        return "implementation raised/crashed: %s" % (str(out)[:300],)
-    if not isinstance(m, list) or not m or m[0] != 1:
-        return "the model rejects this input (%s) but the implementation returned a result" % (str(m)[:100],)
+        return "implementation raised/crashed but the model accepts the input: %s" % (str(out)[:300],)
     if out["dtype"] != "bool" or out["shape"] != case["shape"]:
         return "result dtype/shape %s %s" % (out["dtype"], out["shape"])
     if case["fn"] == "rmnt":
+        if m[1] is None:
+            return None
         # the selection among tied pixels is random in the implementation: compare the number of marked pixels
         a, b = sum(map(sum, m[1])), sum(map(sum, out["out"]))
         return None if a == b else "ties-not-ok: model (instances) marks %d pixels, implementation %d" % (a, b)
     if m[1] != out["out"]:
         return "%s differs from the model: impl %s model %s" % (case["fn"], str(out["out"])[:160], str(m[1])[:160])
+    return None
+
+
+def compare(case, out, m):
+    if case["fn"] != "hist":
+        return _compare_one(case, out, m)
+    if _bad(out):
+        return "implementation raised/crashed: %s" % (str(out)[:300],)
+    for s, (sc, so, sm) in enumerate(zip(case["calls"], out["outs"], m)):
+        d = _compare_one(sc, so, sm)
+        if d:
+            return "call %d of the history: %s" % (s, d)
     return None
 
 
@@ -412,42 +611,84 @@ def _certificate(S, out):
     return L, D, roots, sel, len(roots)
 
 
-def check(ctx, cases, outs):
-    res = [None] * len(cases)
-    for k, o in enumerate(outs):
+def _check_flat(ctx, fcases, fouts):
+    res = [None] * len(fcases)
+    for k, o in enumerate(fouts):
+        inside = _slices_ok(fcases[k])
         if _bad(o):
-            res[k] = "implementation raised/crashed on a valid input: %s" % (str(o)[:300],)
-        elif o["dtype"] != "bool" or o["shape"] != cases[k]["shape"]:
+            if not inside and isinstance(o, dict) and o.get("exc") in ("ValueError", "IndexError"):
+                ctx.count("structure exceeds image: rejected (outside the property's domain)")
+                res[k] = "skip"
+            else:
+                res[k] = "implementation raised/crashed on a valid input: %s" % (str(o)[:300],)
+        elif not inside:
+            res[k] = ("implementation returned a result for a structure whose shifted slices are incompatible "
+                      "(the faithful model fails here)")
+        elif o["dtype"] != "bool" or o["shape"] != fcases[k]["shape"]:
             res[k] = "result is not a boolean array of the image's shape: %s %s" % (o["dtype"], o["shape"])
-    ok = [k for k in range(len(cases)) if res[k] is None]
+        elif not o.get("image_unchanged", True):
+            res[k] = "the call modified its image argument"
+    ok = [k for k in range(len(fcases)) if res[k] is None]
     for fn, entry, what in (("ilm", "entry_check_ilm", "is_local_maximum output is not the set of non-dominated labelled "
                              "pixels (Spec.LocalMaxSpec.ilm_check false)"),
                             ("rm", "entry_check_rm", "regional_maximum(ties_are_ok=True) output is not the set of pixels "
-                             "whose neighbourhood is inside image and mask with no larger value (rm_check false)")):
-        idx = [k for k in ok if cases[k]["fn"] == fn]
-        args = [_margs(cases[k]) + [outs[k]["out"]] for k in idx]
+                             "inside the mask whose neighbourhood is inside image and mask with no larger value "
+                             "(rm_check false)")):
+        idx = [k for k in ok if fcases[k]["fn"] == fn]
+        args = [_margs(fcases[k]) + [fouts[k]["out"]] for k in idx]
         for k, r in zip(idx, ctx.run_model(entry, args)):
             if r != 1:
                 res[k] = what
-    idx = [k for k in ok if cases[k]["fn"] == "rmnt"]
+    idx = [k for k in ok if fcases[k]["fn"] == "rmnt"]
     if idx:
-        margs = [_margs(cases[k]) for k in idx]
+        margs = [_margs(fcases[k]) for k in idx]
         ties = ctx.run_model("entry_rm", margs)       # the verified tie set, only used to build the certificate
         args = []
         for k, a, t in zip(idx, margs, ties):
             S = t[1] if isinstance(t, list) and t and t[0] == 1 else []
-            L, D, roots, sel, n = _certificate(S, outs[k]["out"])
-            args.append(a + [outs[k]["out"], L, D, roots, sel, n])
+            L, D, roots, sel, n = _certificate(S, fouts[k]["out"])
+            args.append(a + [fouts[k]["out"], L, D, roots, sel, n])
         for k, r in zip(idx, ctx.run_model("entry_check_noties", args)):
             if r != 1:
                 res[k] = ("regional_maximum(ties_are_ok=False) does not mark exactly one pixel of every 8-connected "
                           "plateau of the ties-allowed set (Spec.LocalMaxSpec.noties_check false)")
+    return [None if r == "skip" else r for r in res]
+
+
+def check(ctx, cases, outs):
+    res = [None] * len(cases)
+    for k, (c, o) in enumerate(zip(cases, outs)):
+        if c["fn"] == "hist" and (_bad(o) or "outs" not in o):
+            res[k] = "implementation raised/crashed: %s" % (str(o)[:300],)
+    flat = [f for f in _flatten(cases, outs) if res[f[0]] is None]
+    verdicts = _check_flat(ctx, [f[2] for f in flat], [f[3] for f in flat])
+    for (k, s, _, _), v in zip(flat, verdicts):
+        if v and res[k] is None:
+            res[k] = v if s is None else "call %d of the history: %s" % (s, v)
+    # history independence: the same call made several times in one process gives the same result
+    for k, (c, o) in enumerate(zip(cases, outs)):
+        if c["fn"] == "hist" and res[k] is None:
+            seen = {}
+            for s, (sc, so) in enumerate(zip(c["calls"], o["outs"])):
+                key = case_key(sc)
+                if key in seen and seen[key] != so:
+                    res[k] = ("history dependence: call %d repeats an earlier call but returns a different result "
+                              "(%s vs %s)" % (s, str(so)[:120], str(seen[key])[:120]))
+                    break
+                seen[key] = so
     return res
+
+
+def case_key(c):
+    import json
+    return json.dumps(c, sort_keys=True)
 
 
 def nontrivial(case, out):
     if _bad(out):
         return False
+    if case["fn"] == "hist":
+        return any(nontrivial(sc, so) for sc, so in zip(case["calls"], out["outs"]))
     o = out["out"]
     if case["fn"] == "ilm":
         lab = np.array(case["labels"], dtype=case["ldt"]).reshape(case["shape"]) > 0
@@ -461,7 +702,7 @@ def kernel_crosscheck(ctx, cases, outs):
     n = 0
     for fn, entry in (("ilm", "entry_ilm"), ("rm", "entry_rm")):
         idx = [k for k, c in enumerate(cases) if c["fn"] == fn and not _bad(outs[k])
-               and c["shape"][0] * c["shape"][1] <= 30][:25]
+               and c["shape"][0] * c["shape"][1] <= 30 and _slices_ok(c)][:25]
         args = [_margs(cases[k]) for k in idx]
         exp = [[1, outs[k]["out"]] for k in idx]
         r = ctx.coq_eval_eq("Spec.LocalMaxSpec", entry, args, exp, tag=fn)
@@ -480,11 +721,34 @@ def search_cases(ctx, rnd):
         cases.append(_rm_case(rng, 8, True))
     for _ in range(120):
         cases.append(_rm_case(rng, 8, False))
+    for _ in range(20):
+        cases.append(_hist_case(rng, 8))
     return cases
 
 
 def shrink_candidates(case):
+    if case["fn"] == "hist":
+        calls = case["calls"]
+        for k in range(len(calls)):            # a single call, then histories without one call
+            yield calls[k]
+        for k in range(len(calls)):
+            if len(calls) > 2:
+                c = dict(case); c["calls"] = calls[:k] + calls[k + 1:]; c["seeds"] = case["seeds"][:k] + case["seeds"][k + 1:]
+                yield c
+        return
+    if case.get("lay"):
+        c = dict(case); c["lay"] = {}; yield c
+        for n in list(case["lay"]):
+            c = dict(case); c["lay"] = {k: v for k, v in case["lay"].items() if k != n}; yield c
     h, w = case["shape"]
+    if max(h, w) > 40:
+        # long images: halve
+        c = dict(case)
+        for g in ("image", "labels", "mask"):
+            if c.get(g) is not None:
+                c[g] = [r[:max(1, w // 2)] for r in c[g][:max(1, h // 2)]]
+        c["shape"] = [max(1, h // 2) if h else 0, max(1, w // 2) if w else 0]
+        yield c
     grids = ["image", "labels", "mask"]
 
     def cut(rows=None, cols=None):
